@@ -877,6 +877,74 @@ fn dm_run<K: Item + Hash + Eq, V: Item>(hist: &[u64]) -> Option<(String, String)
     None
 }
 
+/// two distinct keys with the same full hash under the crate's hasher (the classic FNV-1a pair)
+/// and one ordinary key
+const COLLIDING: [&str; 3] = ["costarring", "liquid", "other"];
+
+/// every history over {insert, remove, entry, clear} x the colliding pair + one key on a plain map:
+/// after every step get / contains / len / iter for the three keys equal a BTreeMap
+fn cp_run(hist: &[u64]) -> Option<(String, String)> {
+    let keys: Vec<String> = COLLIDING.iter().map(|s| s.to_string()).collect();
+    if CaoHashMap::<String, ()>::verif_raw_hash(&keys[0]) != CaoHashMap::<String, ()>::verif_raw_hash(&keys[1]) {
+        cvx_core::engine::machinery_error("the two strings of the collision pair no longer hash alike: pick another pair for the crate's current hasher");
+    }
+    let mut map: CaoHashMap<String, u32, SysAllocator> = CaoHashMap::with_capacity_in(0, SysAllocator::default()).ok()?;
+    let mut model: BTreeMap<String, u32> = BTreeMap::new();
+    for (step, op) in hist.iter().enumerate() {
+        let k = keys[(*op % 3) as usize].clone();
+        let v = 10 + step as u32;
+        match *op / 3 {
+            0 => {
+                let _ = map.insert(k.clone(), v);
+                model.insert(k, v);
+            }
+            1 => {
+                let got = map.remove(&k);
+                let want = model.remove(&k);
+                if got != want {
+                    return Some(("collision/remove".into(), format!("history {hist:?} step {step}: remove({k:?}) = {got:?}, model {want:?}")));
+                }
+            }
+            2 => {
+                if let Ok(e) = map.entry(k.clone()) {
+                    let got = *e.or_insert_with(|| v);
+                    let want = *model.entry(k).or_insert(v);
+                    if got != want {
+                        return Some(("collision/entry".into(), format!("history {hist:?} step {step}: entry yields {got}, model {want}")));
+                    }
+                }
+            }
+            _ => {
+                if *op % 3 == 0 {
+                    map.clear();
+                    model.clear();
+                }
+            }
+        }
+        if map.len() != model.len() {
+            return Some(("collision/len".into(), format!("history {hist:?} step {step}: len() = {}, model {}", map.len(), model.len())));
+        }
+        for k in keys.iter() {
+            if map.get(k).copied() != model.get(k).copied() {
+                return Some(("collision/get".into(), format!("history {hist:?} step {step}: get({k:?}) = {:?}, model {:?} ({:?} and {:?} have the same full hash)", map.get(k), model.get(k), keys[0], keys[1])));
+            }
+            if map.contains(k) != model.contains_key(k) {
+                return Some(("collision/contains".into(), format!("history {hist:?} step {step}: contains({k:?}) = {}, model {} ({:?} and {:?} have the same full hash)", map.contains(k), model.contains_key(k), keys[0], keys[1])));
+            }
+            // the borrowed form of the key (&str) finds the same entries
+            if map.get(k.as_str()).copied() != model.get(k).copied() {
+                return Some(("collision/get-borrowed".into(), format!("history {hist:?} step {step}: get(&str {k:?}) differs from the model")));
+            }
+        }
+        let mut it: Vec<(String, u32)> = map.iter().map(|(k, v)| (k.clone(), *v)).collect();
+        it.sort();
+        if it != model.iter().map(|(k, v)| (k.clone(), *v)).collect::<Vec<_>>() {
+            return Some(("collision/iter".into(), format!("history {hist:?} step {step}: iter yields {it:?}")));
+        }
+    }
+    None
+}
+
 fn dm_dispatch(combo: u64, hist: &[u64]) -> Option<(String, String)> {
     match combo {
         0 => dm_run::<TK, u32>(hist),
@@ -908,6 +976,26 @@ fn run_drop_matrix(tier: Tier, out: &mut ChunkResult) {
         out.nontrivial += 1;
     }
     out.outcome("drop matrix");
+    // histories over two keys with the same full hash
+    const CP_OPS: u64 = 12;
+    let cp_depth = depth + 1;
+    for code in 0..CP_OPS.pow(cp_depth) {
+        let mut c = code;
+        let hist: Vec<u64> = (0..cp_depth)
+            .map(|_| {
+                let o = c % CP_OPS;
+                c /= CP_OPS;
+                o
+            })
+            .collect();
+        out.evaluations += 1;
+        out.traces += 1;
+        if let Some((k, w)) = cp_run(&hist) {
+            out.violation(Violation::new("C12", k, w, serde_json::json!({"collision": hist})));
+            break;
+        }
+    }
+    out.outcome("full-hash collision pair");
 }
 
 impl Check for C12 {
@@ -918,7 +1006,7 @@ impl Check for C12 {
     fn info(&self, tier: Tier) -> CheckInfo {
         let u = unit_cfgs(tier);
         CheckInfo {
-            rule: "explicit-state BFS over histories of insert/insert_with_hint/remove/remove_with_hint/entry().or_insert_with/get_mut-assign/reserve(0|1|5)/clear/clone-and-continue on the real CaoHashMap<tracked key, tracked value, A>; key alphabet chosen with the real hasher (3 keys whose home slot is the last bucket at capacities 3,4,6,9,13, 2 keys with home slot 0, 1 ordinary key, 1 key hashing to the reserved value 0); after every step get/contains/get_with_hint/contains_with_hint for every key, len, is_empty, iter, iter_mut, bucket dump compared with a BTreeMap model; drop ledger (no object dropped twice at any step, every object dropped exactly once after the map is dropped); fault runs: the same search with allocation #i failing, for every i. Canonical state = capacity, count and every bucket (hash,key,value) in storage order. Non-trivial = state in which a live key is displaced from its home slot. Drop matrix: every history of a 17-operation alphabet (insert / remove / entry / get_mut-assign on 3 keys, clear, reserve, clone, replace-by-clone, drop clones) up to depth 4 (thorough 5) on maps whose key type has drop glue and whose value type has none, the reverse, and both: no object dropped twice at any step, each dropped exactly once at the end".into(),
+            rule: "explicit-state BFS over histories of insert/insert_with_hint/remove/remove_with_hint/entry().or_insert_with/get_mut-assign/reserve(0|1|5)/clear/clone-and-continue on the real CaoHashMap<tracked key, tracked value, A>; key alphabet chosen with the real hasher (3 keys whose home slot is the last bucket at capacities 3,4,6,9,13, 2 keys with home slot 0, 1 ordinary key, 1 key hashing to the reserved value 0); after every step get/contains/get_with_hint/contains_with_hint for every key, len, is_empty, iter, iter_mut, bucket dump compared with a BTreeMap model; drop ledger (no object dropped twice at any step, every object dropped exactly once after the map is dropped); fault runs: the same search with allocation #i failing, for every i. Canonical state = capacity, count and every bucket (hash,key,value) in storage order. Non-trivial = state in which a live key is displaced from its home slot. Drop matrix: every history of a 17-operation alphabet (insert / remove / entry / get_mut-assign on 3 keys, clear, reserve, clone, replace-by-clone, drop clones) up to depth 4 (thorough 5) on maps whose key type has drop glue and whose value type has none, the reverse, and both: no object dropped twice at any step, each dropped exactly once at the end. Collision pair: two distinct string keys with the same full hash under the crate's hasher (\"costarring\" / \"liquid\") and one ordinary key, every history of insert / remove / entry / clear up to depth 5 (thorough 6) against a BTreeMap incl. contains".into(),
             bound: format!("history depth {} (fault runs depth {}), configurations {:?}", u[0].depth, u[4].depth, u.iter().map(|c| format!("{:?}/cap{}", c.alloc, c.init_cap)).collect::<Vec<_>>()),
             exhaustive: true,
             assumptions: vec![
@@ -947,6 +1035,10 @@ impl Check for C12 {
     }
 
     fn replay(&self, case: &J) -> Option<Violation> {
+        if let Some(h) = case.get("collision") {
+            let h: Vec<u64> = serde_json::from_value(h.clone()).ok()?;
+            return cp_run(&h).map(|(k, w)| Violation::new("C12", k, w, case.clone()));
+        }
         if let Some(combo) = case["dropmatrix"].as_u64() {
             let h: Vec<u64> = serde_json::from_value(case["history"].clone()).ok()?;
             return dm_dispatch(combo, &h).map(|(k, w)| Violation::new("C12", k, w, case.clone()));
